@@ -174,7 +174,7 @@ def _share(x, depth=0):
 EARLY = {"asserted": 0, "degraded_not_asserted": 0}
 
 
-def observe_case(topo, root, variant, depths, events, meta, early=False, falsy=False):
+def observe_case(topo, root, variant, depths, events, meta, early=False, falsy=False, stdnames=False):
     import typelib
     fin = finite(topo)
     if root[1] not in fin:
@@ -186,6 +186,10 @@ def observe_case(topo, root, variant, depths, events, meta, early=False, falsy=F
             if d["flavour"] == "dataclass":
                 d["flavour"] = "dc_falsy"
     env = Env(defs, tag="r")
+    if stdnames:
+        # the user's modules are named like modules of the standard library that nobody imports (a project's own profile.py,
+        # token.py, queue.py): what a class is is told by the class, not by the spelling of its module's name
+        env.modnames = {"m1": "sndhdr", "m2": "xdrlib"}
     if early:
         # (module-less references of one failed build compare equal to those of same-named classes of the next case and
         # meet them in the ==-keyed memos -- history across unrelated types is C12's subject: each such case starts cold)
@@ -219,7 +223,7 @@ def observe_case(topo, root, variant, depths, events, meta, early=False, falsy=F
         env.dispose(); return
     EARLY["asserted"] += 1 if early else 0
     ann = env.annotation(field_type(root))
-    info = {"topo": topo, "root": root, "variant": variant, "early_build": early, "falsy": falsy}
+    info = {"topo": topo, "root": root, "variant": variant, "early_build": early, "falsy": falsy, "stdnames": stdnames}
 
     def lev(d, what, out, converted=True):
         events.append({"ev": "level", "T": {"k": "any"}, "out": out, "converted": converted, "check": "flat"})
@@ -329,14 +333,14 @@ def _run(ctx: Ctx, box):
     ncyc = len(cases)
     cases = rng.sample(cases, min(len(cases), 450 if quick else 20000))
     depths = [0, 1, 2, 3, 12]
-    ndeep = 0 if quick else 1500          # every k-th case is also unrolled to depth 50 and 150
+    ndeep = 15 if quick else 1500         # every k-th case is also unrolled to depth 50, 100 and 150
     events, meta = [], []
     clear_typelib_caches()
     for k, c in enumerate(cases):
         deep = ndeep and k % max(1, len(cases) // ndeep) == 0
         n0 = len(meta)
         observe_case(c["topo"], c["root"], k % 5, depths + ([50, 100, 150] if deep else []), events, meta, early=(k % 4 == 3),
-                     falsy=(k % 5 in (0, 3) and k % 3 == 1))
+                     falsy=(k % 5 in (0, 3) and k % 3 == 1), stdnames=(k % 7 == 2))
         if k % 4 == 3:
             clear_typelib_caches()
             if c["root"][0] != "cls" and k % 8 == 7:
@@ -346,7 +350,7 @@ def _run(ctx: Ctx, box):
                 clear_typelib_caches()
         for m in meta[n0:]:
             m["case_id"] = k
-    depths = depths if quick else depths + [50, 100, 150]
+    depths = depths + [50, 100, 150]
     slim = events
     tres, rejects = tlc.validate_trace("Member_Trace", "Member_Trace.cfg", slim, timeout=7200)
     viol = []
@@ -404,7 +408,7 @@ def replay(ctx: Ctx, rep: dict) -> Outcome:
     m = rep["case"]
     sys.setrecursionlimit(30000)
     events, meta = [], []
-    observe_case(m["topo"], m["root"], m["variant"], [m["depth"]] if m["depth"] >= 0 else [0], events, meta, early=m.get("early_build", False), falsy=m.get("falsy", False))
+    observe_case(m["topo"], m["root"], m["variant"], [m["depth"]] if m["depth"] >= 0 else [0], events, meta, early=m.get("early_build", False), falsy=m.get("falsy", False), stdnames=m.get("stdnames", False))
     for e, mm in zip(events, meta):
         print("  ", mm["what"], mm["depth"], e.get("out", e.get("flags")), e.get("converted", e.get("reach")))
     _, rejects = tlc.validate_trace("Member_Trace", "Member_Trace.cfg", events)
